@@ -547,7 +547,8 @@ pub fn mk_pkt(r: &Rng, pid: u16, pusi: bool, cc: u8, payload: &[u8], pcr: bool) 
         p.push(l as u8);
         if l > 0 {
             let mut af = vec![0u8; l];
-            af[0] = if r.chance(1, 4) { 0x40 } else { 0 };
+            // indicator bits (discontinuity, random access, ES priority): no property depends on them
+            af[0] = if r.chance(1, 3) { r.byte() & 0xe0 } else { 0 };
             for b in af[1..].iter_mut() { *b = 0xff; }
             if pcr && l >= 7 { af[0] |= 0x10; for b in af[1..7].iter_mut() { *b = r.byte(); } }
             p.extend(af);
@@ -1194,7 +1195,13 @@ fn rand_script(r: &Rng, npk: usize, pids: &[u16]) -> String {
     ks.sort(); ks.dedup();
     for k in ks {
         let ops: Vec<String> = (0..(1 + r.below(4))).map(|_| {
-            let pid = if r.chance(3, 4) { pids[r.below(pids.len() as u64) as usize] } else { r.below(0x2000) as u16 };
+            let pid = match r.below(8) {
+                0 => r.below(0x2000) as u16,
+                1 => (pids[r.below(pids.len() as u64) as usize] + 1).min(0x1fff),
+                2 => pids[r.below(pids.len() as u64) as usize].saturating_sub(1),
+                3 => (*pids.iter().max().unwrap() + 1).min(0x1fff),   // = table length: first unallocated slot
+                _ => pids[r.below(pids.len() as u64) as usize],
+            };
             if r.chance(1, 2) { format!("i{}", pid) } else { format!("r{}", pid) }
         }).collect();
         s.push_str(&format!(";{}:{}", k, ops.join(",")));
@@ -1246,6 +1253,9 @@ fn gen_c18(tier: &str, r: &Rng, o: &mut Out<'_>) {
         ("b0t0;0:i768", vec![a, a, a]), ("b0t0;0:r768", vec![a, a, a]), ("b0t0;1:r999", vec![a, a, b]),
         ("b0t0;0:i769,i769,r769,i769", vec![a, b, b]), ("b0t0;0:i769,r769", vec![a, b, b]), ("b0t0;1:r768,i768", vec![a, a, a, a]),
         ("b0t0;2:i769", vec![a, a, a]), ("b0t0;0:r769;1:i769", vec![b, a, b, b]), ("b0t0;0:r0", vec![a, 0, 0]),
+        ("b0t0;0:r769", vec![a, a]), ("b0t0;0:r770", vec![a, a]), ("b0t0;0:r767", vec![a, a]), ("b0t0;0:r8191", vec![a, a]),
+        ("b0t0;0:r6", vec![5, 5]), ("b0t0;0:r1", vec![5, 5]), ("b0t0;0:r8191,i8191,r8190", vec![0x1fff, 0x1fff, 0x1ffe]),
+        ("b0t0;0:i8191;1:r8191", vec![a, a, 0x1fff]),
     ];
     for (cfg, pids) in cases {
         let pk = mk(&pids);
@@ -1422,9 +1432,39 @@ fn gen_c04_gate(tier: &str, r: &Rng, o: &mut Out<'_>) {
     }
 }
 
+/// a valid table is applied first, THEN damaged copies arrive whose version field differs (so the
+/// de-duplication layer lets them through): nothing may be requested, replaced or removed by them
+fn gen_c04_after_valid(tier: &str, r: &Rng, o: &mut Out<'_>) {
+    let nt = if tier == "thorough" { 400 } else { 40 };
+    for t in 0..nt {
+        let (progs, pat) = base_tables(r);
+        let target_pat = t % 2 == 0;
+        let sec = if target_pat { pat.clone() } else { pmt_of(&progs[0]) };
+        let pid = if target_pat { 0 } else { progs[0].pmt_pid };
+        for vbit in 0..5usize {
+            for extra in 0..3usize {
+                let mut bad = sec.clone();
+                bad[5] ^= 0x02 << vbit;                    // version_number bit: CRC field unchanged
+                if extra == 1 { let i = 8 + r.below((bad.len() - 12).max(1) as u64) as usize; bad[i] ^= 1 << r.below(8); }
+                if extra == 2 { let i = r.below(bad.len() as u64) as usize; bad[i] = bad[i].wrapping_add(1 + r.below(255) as u8); }
+                if crc32(&bad) == 0 { continue; }
+                let mut m = Mux::new(r);
+                let mut all = vec![];
+                if !target_pat { all.extend(m.section(0, &pat, &simple_plan(pat.len()))); }
+                all.extend(m.section(pid, &sec, &plan_for(r, &sec)));
+                for _ in 0..(1 + r.below(2)) { all.extend(m.section(pid, &bad, &plan_for(r, &bad))); }
+                let pp: Vec<u16> = progs.iter().flat_map(|p| p.streams.iter().map(|s| s.1).chain(std::iter::once(p.pmt_pid))).collect();
+                all.extend(probes(&mut m, &pp));
+                emit(o, true, "b0t0", &rand_pushes(r, &all));
+            }
+        }
+    }
+}
+
 fn gen_c04(tier: &str, r: &Rng, o: &mut Out<'_>) {
     gen_crc_cases(tier, r, o);
     gen_c04_gate(tier, r, o);
+    gen_c04_after_valid(tier, r, o);
     o.meta("exhaustive", "all 256 one-byte CRC inputs (= every table row); every single-bit corruption of the generated tables");
 }
 
@@ -1537,6 +1577,18 @@ fn hostile_psi_stream(r: &Rng) -> Vec<Vec<u8>> {
             _ => {}
         }
         let plan = rand_plan(r, sec.len(), 1);
+        all.extend(m.section(if on_pat { 0 } else { pmt_pid }, &sec, &plan));
+    }
+    // tiny sections around the minimum CRC-bearing length (12 bytes), with a VALID CRC: they pass
+    // every length guard that is too lax and must still be dropped before the table processors
+    for _ in 0..r.below(4) {
+        let on_pat = r.chance(1, 2);
+        let total = 3 + r.below(12) as usize; // 3..=14 bytes
+        let sl = total - 3;
+        let mut sec = vec![if on_pat { 0 } else { 2 }, 0xb0 | ((sl >> 8) as u8 & 0x0f), sl as u8];
+        while sec.len() + 4 < total { sec.push(r.byte()); }
+        let sec = if total >= 7 { with_crc(sec) } else { let mut s2 = sec; while s2.len() < total { s2.push(r.byte()); } s2 };
+        let plan = SecPlan { pre: vec![], first: sec.len(), conts: vec![], trailing_stuff: r.chance(2, 3) };
         all.extend(m.section(if on_pat { 0 } else { pmt_pid }, &sec, &plan));
     }
     all
